@@ -643,6 +643,42 @@ def case_observe_mutate(case):
     return out
 
 
+
+def case_observe_setdefault(case):
+    """Observe a tensor, change its leaf default (Tensor.setDefault), observe again: emptiness, counts, the pruned copy
+    and equality follow the new default (a stored leaf equal to it is now empty, a stored 0 is a value)."""
+    spec, depth, newd = case
+    out = []
+    feats = spec_feats(spec, depth) | {"observe-setDefault-observe", "new_default:%s" % newd}
+    try:
+        t = Tensor.fromFiber(RANK_IDS[:depth], mk(spec, depth, 0), default=0)
+        root = t.getRoot()
+        twin = copy.deepcopy(t)
+        root.isEmpty(), t.countValues(), root.nonEmpty(), (t == twin), t.getDefault()
+        for _, f in _all_fibers(root):
+            f.isEmpty()
+            f.getDefault()
+        t.setDefault(newd)
+        exp = raw_content(root, newd)
+        n = len(exp)
+        if root.isEmpty() != (n == 0):
+            out.append(("isEmpty", "stale-after-setDefault", feats, n == 0, root.isEmpty()))
+        if t.countValues() != n:
+            out.append(("Tensor.countValues", "stale-after-setDefault", feats, n, t.countValues()))
+        if root.countValues() != n:
+            out.append(("Fiber.countValues", "stale-after-setDefault", feats, n, root.countValues()))
+        ne = root.nonEmpty()
+        if raw_content(ne, newd) != exp:
+            out.append(("nonEmpty", "stale-after-setDefault", feats, exp, raw_content(ne, newd)))
+        fresh = Tensor.fromFiber(RANK_IDS[:depth], mk(spec, depth, 0), default=newd)
+        if not (t == fresh) or not (fresh == t):
+            out.append(("tensor==", "stale-after-setDefault", feats, True, (t == fresh, fresh == t)))
+        core.CUR.nt("observe_setdefault")
+    except Exception as ex:
+        _exc(out, "observe_setdefault", feats, ex)
+    return out
+
+
 def _all_fibers(f, prefix=()):
     out = [(prefix, f)]
     for c, p in zip(f.coords, f.payloads):
@@ -666,6 +702,9 @@ def shard_observe_mutate(acc, shard, nshards, params):
                     yield (spec, 2, w, v)
     drive(acc, "observe_mutate", case_observe_mutate, gen(), shard, nshards,
           family="observe-mutate-observe[F1(3), T2(2,2)]")
+    sd = [(spec, 1, d) for spec in specs1 for d in (1, 7)] + [(spec, 2, d) for spec in specs2 for d in (1, 7)]
+    drive(acc, "observe_setdefault", case_observe_setdefault, sd, shard, nshards,
+          family="observe-setDefault-observe[F1(3), T2(2,2)]")
 
 
 def shard_edited(acc, shard, nshards, params):
@@ -975,7 +1014,7 @@ def shard_diff_defaults(acc, shard, nshards, params):
                family="pairs-with-different-leaf-defaults[1-D over 3, 2x2]")
 
 
-CASES = {"diff_defaults": case_diff_defaults, "pair": case_pair, "triple": case_triple, "single": case_single, "payload_empty": case_payload_empty,
+CASES = {"observe_setdefault": case_observe_setdefault, "diff_defaults": case_diff_defaults, "pair": case_pair, "triple": case_triple, "single": case_single, "payload_empty": case_payload_empty,
          "edited": case_edited, "owner_default": case_owner_default, "observe_mutate": case_observe_mutate,
          "copies": case_copies}
 
